@@ -105,7 +105,7 @@ def terms(cfg, gen, comb):
     return dict(exact=comb.exact(n), S=S, rho=rho, classA=classA, fac=fac, hmax=hmax, hmin=hmin)
 
 
-def run_spec(spec, points, tier, visit, quick_slice=0, honesty=False):
+def run_spec(spec, points, tier, visit, quick_slice=0, honesty=False, want_steps=False):
     """Execute every configuration of one spec; visit(cfg, gen, comb, terms, res, form) per call.
     form: 'scalar' | ('array', index)"""
     fun = spec_fun(spec)
@@ -113,9 +113,13 @@ def run_spec(spec, points, tier, visit, quick_slice=0, honesty=False):
     if not combs:
         return 0
     real = spec[0] == 'real'
-    deep = real and jets.depth(spec[1]) >= 3
+    dpt = jets.depth(spec[1]) if real else jets.depth(spec[2])
+    deep = real and dpt >= 3
+    mid = tier == 'thorough' and dpt == 2 and not (real and spec[1][0] == 'u' and spec[1][2][0] == 's')
     if deep:      # depth-3 chains: 5-point sub-pool and orders {1, 2, 4, 6}
         combs = [c for c in combs if c.x in (0.05, 0.75, 4.0, 100.0, -2.0)]
+    elif mid:     # depth-2 compositions / binaries: 6-point sub-pool and orders {1, 2, 3, 4, 6, 8}
+        combs = [c for c in combs if c.x in (1e-3, 0.3, 1.5, 20.0, -0.3, -20.0)]
     methods = cm.METHODS if real else ['central', 'forward', 'backward']
     ncalls = 0
     d1 = tier == 'thorough' and ((real and jets.depth(spec[1]) <= 1) or (spec[0] == 'rot' and jets.depth(spec[2]) <= 1))
@@ -128,7 +132,7 @@ def run_spec(spec, points, tier, visit, quick_slice=0, honesty=False):
             gens = gens + cm.quick_gen_menu(method, honesty)
         for gen in gens:
             for n in range(0, cm.NMAX[method] + 1):
-                orders = ([1, 2, 4, 6] if deep else cm.ORDERS) if gen[0] == 'default' else [1, 2, 3, 4]
+                orders = ([1, 2, 4, 6] if deep else ([1, 2, 3, 4, 6, 8] if mid else cm.ORDERS)) if gen[0] == 'default' else [1, 2, 3, 4]
                 if gen[0] != 'default' and n == 0:
                     continue
                 for order in orders:
@@ -139,7 +143,7 @@ def run_spec(spec, points, tier, visit, quick_slice=0, honesty=False):
                             continue
                         pi = cm.PointInfo()
                         pi.x = comb.x
-                        res = cm.run_config(fun, cfg, gen, pi, None)
+                        res = cm.run_config(fun, cfg, gen, pi, None, want_steps)
                         ncalls += 1
                         visit(cfg, gen, comb, t, res, 'scalar')
                     # one array call over all in-domain points (default generator only)
